@@ -24,6 +24,11 @@ correspondence : (A) the kernels classical_strength_of_connection_abs/min, symme
                  whose arrays are compared with SciPy's exactly, and amalgamate; symmetric with irrational block norms), and
                  the whole energy measure on complex CSR and on real / complex BSR input: pattern exact outside the
                  near-threshold entries named by the exact oracle, values to 1e-13 (energy: conditioning-scaled tolerance).
+                 (G) extension E44, model of Model/ExtC14YEvol.lean over a scalar type: the whole of evolution_strength_of_connection
+                 for NullDim 1..3 (kernel evolution_strength_helper, exact Moore-Penrose inverse of the local problems), k in 1..8
+                 (k = 1, not a power of two, 2^m), epsilon finite or inf, proj_type l2 / D_A, symmetrize on / off, real / complex CSR
+                 and BSR (same-PDE mask, block_flag, tobsr + min_blocks): Atilde handed to the kernel, the kernel on its observed
+                 input, the strength values at the filter and the returned matrix, to conditioning-scaled tolerances.
 search         : (C) every public measure judged by an independent exact (Fraction) oracle of the property:
                  contract (nodal shape, pattern, [0,1], row maximum 1, diagonal kept), the classical / symmetric
                  rule entry by entry, monotonicity over a theta grid, theta = 0.
@@ -54,9 +59,15 @@ META = {
                     'vector (NullDim == 1, the default B), k in {2, 4, 8}, finite epsilon as well (evolFull: time stepping, incomplete_mat_mult_csr, '
                     'the NullDim == 1 strength rule, filter, symmetrisation, scaling; evolution_full_contract); both are compared with the real '
                     'functions stage by stage on every run (part E), the only input taken from the real call being the spectral-radius estimate. '
-                    'SEARCH ONLY remain: approximate_spectral_radius itself; evolution with NullDim > 1 (evolution_strength_helper, constrained '
-                    'minimisation), k = 1 or not a power of two, epsilon = inf, BSR or complex input (the energy measure on complex CSR and on real / '
-                    'complex BSR input is modelled as a whole since extension E40: energyFullC, energyFullBsr, energyFullBsrC, part F): there '
+                    'Since extension E44 evolution_strength_of_connection is modelled as a whole for every NullDim (evolution_strength_helper: local '
+                    'constrained least-squares problems with the exact Moore-Penrose inverse), every k >= 1 (k = 1, not a power of two, 2^m), epsilon = inf, '
+                    'both proj_types, BSR input (same-PDE mask, block_flag, tobsr + min_blocks) and complex input (Model/ExtC14YEvol.lean: evolFullG / '
+                    'evolFullBsr over a scalar type; theorems evolution_contract_all_candidates, evolution_contract_in_pattern, evolution_contract_bsr, '
+                    'evolution_helper_values, evolution_model_total) and compared with the real function stage by stage in part G (the energy measure on '
+                    'complex CSR and on real / complex BSR input since extension E40: energyFullC, energyFullBsr, energyFullBsrC, part F). '
+                    'SEARCH ONLY remain: approximate_spectral_radius itself (its estimate is an input of the models); float32 input and instances the '
+                    'part G comparison skips as ill-conditioned or near a threshold (singular-value cutoff of svd_solve / pinv_array, zhat zero filter, '
+                    'weak ratio, right angles, sqrt(eps), epsilon ties, exact cancellations): there '
                     '"pattern contained in the input, diagonal kept" is checked on the outputs of the real code (spec oracle), '
                     'and for CSR input with finite power-of-two epsilon / dyadic theta the part of the function after the strength values is '
                     'modelled (evolution_tail_contract, energy_tail_contract) and compared with the real result on the values observed at '
@@ -74,7 +85,23 @@ META = {
                     'block=False and by the energy measure is modelled (Spmm.bsrToCsr, theorems bsr_tocsr_row / bsr_tocsr_entries / bsr_tocsr_meaning) '
                     'and its arrays are compared with A.tocsr() exactly in part F; the parts A / B models still start from the converted CSR arrays'],
     'partial': [],
-    'assumptions': ['part E (whole energy / evolution measures): the spectral-radius estimate is recorded from the real call through a pass-through '
+    'assumptions': ['part G (extension E44, whole evolution measure for every NullDim / k / epsilon / format / scalar type): the spectral-radius estimate is '
+                    'recorded from the real call (pass-through wrapper of approximate_spectral_radius; real and positive, else the instance goes to the '
+                    'spec oracle only); observed through pass-through wrappers: the arguments and the result of amg_core.evolution_strength_helper, the '
+                    'argument of amg_core.apply_distance_filter, the pattern handed to scale_rows in the NullDim == 1 shortcut. The model is exact '
+                    '(Rat / Gaussian rationals, exact Moore-Penrose inverse; complex moduli to relative 2^-100), the code is binary64 with a singular-value '
+                    'cutoff (svd_solve: 50 eps^(3/4) sigma_max; pinv_array for block_flag): they are compared where the exact rank of every local matrix '
+                    '(computed with Fractions) equals the number of singular values above 1e-6 sigma_max and the remaining ones are below 1e-12 sigma_max '
+                    '(else near_threshold_skipped: e.g. proj_type D_A on a matrix scaled by 2^-66, where the cutoff discards the D_A-weighted block). '
+                    'Kernel on its observed input: 4e-13 * kappa_ij (kappa_ij = 1 + cond(LHS) (max|zhat| + rowmax) / |z_j| / err); Atilde: 4e-13 * rowmax; '
+                    'strength values: 4e-13 * kappa_ij; returned matrix: 1e-12 * max kappa (instances with max kappa > 1e5 skipped). Skipped and counted '
+                    'in near_threshold_skipped: decisions of the exact model within 1e-3..1e-9 relative of a threshold (|ratio|^2 <= 1e-8 resp. '
+                    '|ratio| < 1e-4, angle test on a numerically right angle, err < sqrt(eps), real / imaginary parts of zhat within 1e-3..1e3 of '
+                    'tol * max|zhat|, epsilon * min ties), entries of Atilde below 1e-5 of their row maximum, and entries that cancel exactly on one '
+                    'side only (inside the pattern the code allows). Matrices: the _sym_matrix families as real / complex CSR (n <= 8) and BSR (<= 4 '
+                    'nodes, block size 1..3), optional missing diagonal / stored zero / global 2^k scaling; B: polynomial, alternating and random '
+                    'small-integer (complex: Gaussian-integer) candidates with NullDim 1..3, rank-deficient local problems included',
+                    'part E (whole energy / evolution measures): the spectral-radius estimate is recorded from the real call through a pass-through '
                     'wrapper of pyamg.strength.approximate_spectral_radius (omega = 1.0/rho resp. c = 1.0/rho are handed to the model as exact '
                     'dyadic numbers); intermediate stages are observed through pass-through wrappers (inner classical call, '
                     'amg_core.incomplete_mat_mult_csr, amg_core.apply_distance_filter). The model is exact (Rat; square roots to relative 2^-80), '
@@ -2210,8 +2237,15 @@ def _call_spied_g(A, p):
     """the real function with pass-through wrappers recording the spectral-radius estimate, the arguments / result of
     evolution_strength_helper and the argument of apply_distance_filter"""
     from pyamg import strength as ST
-    rec = {'rho': [], 'helper': [], 'filt': []}
+    rec = {'rho': [], 'helper': [], 'filt': [], 'pat1': []}
     o_rho, o_f, o_h = ST.approximate_spectral_radius, ST.amg_core.apply_distance_filter, ST.amg_core.evolution_strength_helper
+    o_sr = ST.scale_rows
+
+    def s_sr(M, v, *a, **kw):
+        # the NullDim == 1 shortcut calls scale_rows(Atilde, DAtildeDivB) with Atilde.data set to 1.0: its pattern is observed
+        if sp.issparse(M) and M.format == 'csr' and M.nnz == len(M.data) and (np.asarray(M.data) == 1.0).all():
+            rec['pat1'].append((np.array(M.indptr), np.array(M.indices)))
+        return o_sr(M, v, *a, **kw)
 
     def s_rho(M, *a, **kw):
         r = o_rho(M, *a, **kw)
@@ -2230,11 +2264,13 @@ def _call_spied_g(A, p):
         h['out'] = np.array(Sx)
         return r
     ST.approximate_spectral_radius = s_rho
+    ST.scale_rows = s_sr
     ST.amg_core.apply_distance_filter, ST.amg_core.evolution_strength_helper = s_f, s_h
     try:
         S = call_other('evolution', A.copy(), p)
     finally:
         ST.approximate_spectral_radius = o_rho
+        ST.scale_rows = o_sr
         ST.amg_core.apply_distance_filter, ST.amg_core.evolution_strength_helper = o_f, o_h
     return S, rec
 
@@ -2520,6 +2556,23 @@ def _g_finish(ctx, item, o, oh):
                 ctx.near_skipped += 1
                 ctx.feat('G:near_threshold:atilde_zero')
                 return True
+    if K == 1:
+        # the pattern of Atilde in the shortcut (observed at scale_rows): an entry that cancels exactly in the model and is rounding
+        # noise in floating point (or the other way round) makes eliminate_zeros differ
+        if not rec['pat1']:
+            ctx.corr('E44: the NullDim == 1 shortcut did not hand Atilde (data 1.0) to scale_rows', case, o, '')
+            return False
+        ip1, ix1 = rec['pat1'][-1]
+        pat_obs = {(i, int(ix1[jj])) for i in range(len(ip1) - 1) for jj in range(ip1[i], ip1[i + 1])}
+        if pat_obs != set(Pf):
+            Ad = A.toarray() != 0
+            msk = (p['k'] != 1) or bs > 1
+            if all(((Ad[i, j] and (bs <= 1 or i % bs == j % bs)) if msk else (i == j or Ad[j, i])) for i, j in pat_obs ^ set(Pf)):
+                ctx.near_skipped += 1          # inside the pattern the code allows: a numerically zero entry
+                ctx.feat('G:near_threshold:atilde_zero')
+                return True
+            ctx.corr('pattern of Atilde in the NullDim == 1 shortcut (model atildeOf)', case, t_P, enc_out(ip1, ix1, np.ones(len(ix1))))
+            return False
     near, kap = _g_analyse(Pf, n, B, dA, K)
     if near:
         ctx.near_skipped += 1
@@ -2605,6 +2658,7 @@ def run(ctx):
     corr_parts(ctx, ctx.scale(900, 40000), ctx.scale(130, 6500), ctx.scale(300, 13000))
     run_part_e(ctx, ctx.scale(240, 8000))
     run_part_f(ctx, ctx.scale(45, 2400), ctx.scale(90, 3000))
+    run_part_g(ctx, ctx.scale(160, 9000))
     part_c(ctx, ctx.scale(240, 13000), ctx.scale(360, 19000))
 
 
@@ -2612,6 +2666,7 @@ def search(ctx):
     part_c(ctx, 900, 600)
     run_part_e(ctx, 600)
     run_part_f(ctx, 150, 300)
+    run_part_g(ctx, 700)
 
 
 def replay(ctx, data):
